@@ -499,6 +499,124 @@ Lemma default_record_eq :
   default_record = [None; None; None; None; Some (VInt 0); Some (VStr []); None; None; Some (VInt 0)].
 Proof. vm_compute. reflexivity. Qed.
 
+(* the arguments are acceptable one by one and give a complete row whose id column is not the -i id
+   (a step=J argument with J different from the id) *)
+Definition renumbers (s : astate) (idarg : bytes) (kvs : list bytes) : bool :=
+  match denote_id idarg, kvs with
+  | Some id, _ :: _ =>
+      match apply_kvs (match alist_find id s with
+                       | Some r => r
+                       | None => set_nth 0 (Some (VInt id)) default_record
+                       end) kvs with
+      | Some r => complete r && negb (keeps_id id r)
+      | None => false
+      end
+  | _, _ => false
+  end.
+
+Lemma in_i64_id s id : strtonum id_min id_max s = NumOk id -> in_i64 id.
+Proof.
+  intros Eid. apply strtonum_range in Eid. unfold in_i64.
+  change id_min with (-2147483647)%Z in Eid. change id_max with 2147483647%Z in Eid.
+  change int_min with (-9223372036854775808)%Z. change int_max with 9223372036854775807%Z. lia.
+Qed.
+
+(* the id test of action_write on a complete row is the specification's [keeps_id] *)
+Lemma keeps_id_row_of id d : keeps_id id (row_of d) = (row_id (row_of d) =? id)%Z.
+Proof. reflexivity. Qed.
+
+(* The write command refines the dictionary.  [chk] = whether action_write compares the id column
+   with -i (robsd-step.c since 17c91c8): with the test, for EVERY argument list; without it, for
+   every argument list that does not renumber the row. *)
+Theorem write_refines_with chk ds file idarg kvs :
+  Forall wfdata ds -> sorted ds -> reps ds file ->
+  (chk = false -> renumbers (abs ds) (cstr idarg) (map cstr kvs) = false) ->
+  match spec_write (abs ds) (cstr idarg) (map cstr kvs) with
+  | Some s' => exists ds', s' = abs ds' /\ Forall wfdata ds' /\ sorted ds' /\
+                           write_cmd_with chk false (Some file) idarg kvs = (0, Some (file_of ds'))
+  | None => write_cmd_with chk false (Some file) idarg kvs = (1, Some file)
+  end.
+Proof.
+  intros W S R NR. unfold spec_write, write_cmd_with, denote_id. unfold renumbers, denote_id in NR.
+  rewrite (parse_reps ds file W R).
+  destruct (strtonum id_min id_max (cstr idarg)) as [id| | |] eqn:Eid; try reflexivity.
+  destruct (Z.eqb_spec id 0) as [E0|E0]; [reflexivity|].
+  destruct kvs as [|kv0 kvs0]; [reflexivity|].
+  cbn [map] in NR. set (kvs := kv0 :: kvs0) in *.
+  change (cstr kv0 :: map cstr kvs0) with (map cstr kvs) in NR.
+  change (map cstr kvs) with (cstr kv0 :: map cstr kvs0) at 1.
+  cbv iota.
+  assert (Hnn : Forall nonulb (map cstr kvs)).
+  { apply Forall_forall. intros x Hx. apply in_map_iff in Hx. destruct Hx as [y [<- _]]. apply cstr_nonul. }
+  assert (Hid64 : in_i64 id) by (eapply in_i64_id; eauto).
+  rewrite alist_find_abs in *. rewrite (update_row_put _ id ds S).
+  destruct (find_data id ds) as [d|] eqn:Ef; cbn [omap] in *.
+  - (* the id is present: update in place *)
+    destruct (find_data_some _ _ _ Ef) as [Hdid Hdin].
+    rewrite set_keyvals_apply by exact Hnn.
+    assert (Wd : wfdata d) by (rewrite Forall_forall in W; auto).
+    destruct (apply_kvs (row_of d) (map cstr kvs)) as [r'|] eqn:Ea; [|reflexivity].
+    pose proof (apply_kvs_ok _ _ _ (okrow_of d Wd) Ea) as Hok.
+    destruct (complete r') eqn:Ec; cbn [andb] in *.
+    + destruct (okrow_complete r' Hok Ec) as [d' [-> Wd']].
+      rewrite keeps_id_row_of in *.
+      destruct (Z.eqb_spec (row_id (row_of d')) id) as [Hk|Hk]; cbn [negb].
+      * rewrite andb_false_r. rewrite row_id_of in Hk.
+        exists (put d' ds). split; [now rewrite <- Hk, alist_put_abs|].
+        split; [now apply put_wf|]. split; [now apply put_sorted|].
+        rewrite <- Hk. rewrite replace_is_put; [|exact S|rewrite Hk, <- Hdid; now apply in_map].
+        rewrite write_sorted_file by (auto using put_wf, put_sorted). reflexivity.
+      * destruct chk; [reflexivity|]. specialize (NR eq_refl). discriminate NR.
+    + destruct (chk && negb (row_id r' =? id)%Z); [reflexivity|].
+      rewrite (serialize_rows_fail _ r'); [reflexivity| |now apply incomplete_unserializable].
+      apply sort_rows_In. apply in_map_iff. exists d. split; [|exact Hdin]. now rewrite Hdid, Z.eqb_refl.
+  - (* a new id: append and sort *)
+    rewrite step_init_eq.
+    rewrite (set_field_int _ step_name (nth 0 fields (mkfdef [] FInt 0 false [])) id) by (auto; reflexivity).
+    cbn [fd_index nth fields set_nth omap].
+    rewrite default_record_eq in *. cbn [set_nth] in *.
+    rewrite set_keyvals_apply by exact Hnn.
+    set (base := [Some (VInt id); None; None; None; Some (VInt 0); Some (VStr []); None; None; Some (VInt 0)]) in *.
+    assert (Hbase : okrow base).
+    { unfold okrow, fields, base. repeat (apply Forall2_cons || apply Forall2_nil); cbn; auto;
+        try (split; [reflexivity|now left]); unfold in_i64 in *;
+        change int_min with (-9223372036854775808)%Z; change int_max with 9223372036854775807%Z; lia. }
+    destruct (apply_kvs base (map cstr kvs)) as [r'|] eqn:Ea; [|reflexivity].
+    pose proof (apply_kvs_ok _ _ _ Hbase Ea) as Hok.
+    pose proof (find_data_none _ _ Ef) as Hnotin.
+    destruct (complete r') eqn:Ec; cbn [andb] in *.
+    + destruct (okrow_complete r' Hok Ec) as [d' [-> Wd']].
+      rewrite keeps_id_row_of in *.
+      destruct (Z.eqb_spec (row_id (row_of d')) id) as [Hk|Hk]; cbn [negb].
+      * rewrite andb_false_r. cbn [omap]. rewrite row_id_of in Hk.
+        exists (put d' ds). split; [now rewrite <- Hk, alist_put_abs|].
+        split; [now apply put_wf|]. split; [now apply put_sorted|].
+        rewrite sort_snoc; [|rewrite map_row_id; exact S|rewrite map_row_id, row_id_of, Hk; exact Hnotin].
+        rewrite insert_put by (rewrite Hk; exact Hnotin).
+        rewrite <- (sort_sorted (map row_of (put d' ds))) by (rewrite map_row_id; now apply put_sorted).
+        rewrite write_sorted_file by (auto using put_wf, put_sorted). reflexivity.
+      * destruct chk; [reflexivity|]. specialize (NR eq_refl). discriminate NR.
+    + destruct (chk && negb (row_id r' =? id)%Z); [reflexivity|]. cbn [omap].
+      rewrite (serialize_rows_fail _ r'); [reflexivity| |now apply incomplete_unserializable].
+      apply sort_rows_In. apply in_or_app. right. now left.
+Qed.
+
+(* [no_id_key] (no step=... argument at all) is one way of not renumbering *)
+Lemma no_id_key_no_renumber ds idarg kvs : no_id_key kvs -> renumbers (abs ds) idarg kvs = false.
+Proof.
+  intros NK. unfold renumbers. destruct (denote_id idarg) as [id|] eqn:Eid; [|reflexivity].
+  destruct kvs as [|kv kvs]; [reflexivity|].
+  destruct (apply_kvs _ (kv :: kvs)) as [r|] eqn:Ea; [|reflexivity].
+  pose proof (apply_kvs_keeps0 _ _ _ NK Ea) as H0.
+  assert (Hk : keeps_id id r = true).
+  { unfold keeps_id. rewrite H0. rewrite alist_find_abs.
+    destruct (find_data id ds) as [d|] eqn:Ef; cbn [omap].
+    - destruct (find_data_some _ _ _ Ef) as [Hd _]. cbn. rewrite Hd. apply Z.eqb_refl.
+    - cbn. apply Z.eqb_refl. }
+  rewrite Hk. now rewrite andb_false_r.
+Qed.
+
+(* the command of the source as it stands (Gen_Step.step_key_checked) *)
 Theorem write_refines ds file idarg kvs :
   Forall wfdata ds -> sorted ds -> reps ds file -> no_id_key (map cstr kvs) ->
   match spec_write (abs ds) (cstr idarg) (map cstr kvs) with
@@ -507,66 +625,6 @@ Theorem write_refines ds file idarg kvs :
   | None => write_cmd false (Some file) idarg kvs = (1, Some file)
   end.
 Proof.
-  intros W S R NK. unfold spec_write, write_cmd, denote_id.
-  rewrite (parse_reps ds file W R).
-  destruct (strtonum id_min id_max (cstr idarg)) as [id| | |] eqn:Eid; try reflexivity.
-  destruct (Z.eqb_spec id 0) as [E0|E0]; [reflexivity|].
-  destruct kvs as [|kv0 kvs0]; [reflexivity|].
-  set (kvs := kv0 :: kvs0) in *.
-  change (map cstr kvs) with (cstr kv0 :: map cstr kvs0) at 1.
-  cbv iota.
-  assert (Hnn : Forall nonulb (map cstr kvs)).
-  { apply Forall_forall. intros x Hx. apply in_map_iff in Hx. destruct Hx as [y [<- _]]. apply cstr_nonul. }
-  assert (Hid64 : in_i64 id).
-  { apply strtonum_range in Eid. unfold in_i64. change id_min with (-2147483647)%Z in Eid.
-    change id_max with 2147483647%Z in Eid. change int_min with (-9223372036854775808)%Z.
-    change int_max with 9223372036854775807%Z. lia. }
-  rewrite alist_find_abs. rewrite (update_row_put _ id ds S).
-  destruct (find_data id ds) as [d|] eqn:Ef; cbn [omap].
-  - (* the id is present: update in place *)
-    destruct (find_data_some _ _ _ Ef) as [Hdid Hdin].
-    rewrite set_keyvals_apply by exact Hnn.
-    assert (Wd : wfdata d) by (rewrite Forall_forall in W; auto).
-    destruct (apply_kvs (row_of d) (map cstr kvs)) as [r'|] eqn:Ea; [|reflexivity].
-    pose proof (apply_kvs_ok _ _ _ (okrow_of d Wd) Ea) as Hok.
-    assert (Hin' : In r' (map (fun x => if (d_step x =? id)%Z then r' else row_of x) ds)).
-    { apply in_map_iff. exists d. split; [|exact Hdin]. now rewrite Hdid, Z.eqb_refl. }
-    destruct (complete r') eqn:Ec; cbn [andb].
-    + destruct (okrow_complete r' Hok Ec) as [d' [-> Wd']].
-      assert (Hk : d_step d' = id).
-      { pose proof (apply_kvs_keeps0 _ _ _ NK Ea) as H0. cbn in H0. congruence. }
-      unfold keeps_id. cbn [row_of nth_error]. rewrite Hk, Z.eqb_refl.
-      exists (put d' ds). split; [now rewrite <- Hk, alist_put_abs|].
-      split; [now apply put_wf|]. split; [now apply put_sorted|].
-      rewrite <- Hk. rewrite replace_is_put; [|exact S|rewrite Hk, <- Hdid; now apply in_map].
-      rewrite write_sorted_file by (auto using put_wf, put_sorted). reflexivity.
-    + rewrite (serialize_rows_fail _ r'); [reflexivity| |now apply incomplete_unserializable].
-      apply sort_rows_In. exact Hin'.
-  - (* a new id: append and sort *)
-    rewrite step_init_eq.
-    rewrite (set_field_int _ step_name (nth 0 fields (mkfdef [] FInt 0 false [])) id) by (auto; reflexivity).
-    cbn [fd_index nth fields set_nth omap].
-    rewrite default_record_eq. cbn [set_nth].
-    rewrite set_keyvals_apply by exact Hnn.
-    set (base := [Some (VInt id); None; None; None; Some (VInt 0); Some (VStr []); None; None; Some (VInt 0)]).
-    assert (Hbase : okrow base).
-    { unfold okrow, fields, base. repeat (apply Forall2_cons || apply Forall2_nil); cbn; auto;
-        try (split; [reflexivity|now left]); unfold in_i64 in *;
-        change int_min with (-9223372036854775808)%Z; change int_max with 9223372036854775807%Z; lia. }
-    destruct (apply_kvs base (map cstr kvs)) as [r'|] eqn:Ea; [|reflexivity].
-    pose proof (apply_kvs_ok _ _ _ Hbase Ea) as Hok. cbn [omap].
-    pose proof (find_data_none _ _ Ef) as Hnotin.
-    destruct (complete r') eqn:Ec; cbn [andb].
-    + destruct (okrow_complete r' Hok Ec) as [d' [-> Wd']].
-      assert (Hk : d_step d' = id).
-      { pose proof (apply_kvs_keeps0 _ _ _ NK Ea) as H0. cbn in H0. congruence. }
-      unfold keeps_id. cbn [row_of nth_error]. rewrite Hk, Z.eqb_refl.
-      exists (put d' ds). split; [now rewrite <- Hk, alist_put_abs|].
-      split; [now apply put_wf|]. split; [now apply put_sorted|].
-      rewrite sort_snoc; [|rewrite map_row_id; exact S|rewrite map_row_id, row_id_of, Hk; exact Hnotin].
-      rewrite insert_put by (rewrite Hk; exact Hnotin).
-      rewrite <- (sort_sorted (map row_of (put d' ds))) by (rewrite map_row_id; now apply put_sorted).
-      rewrite write_sorted_file by (auto using put_wf, put_sorted). reflexivity.
-    + rewrite (serialize_rows_fail _ r'); [reflexivity| |now apply incomplete_unserializable].
-      apply sort_rows_In. apply in_or_app. right. now left.
+  intros W S R NK. apply (write_refines_with step_key_checked ds file idarg kvs W S R).
+  intros _. now apply no_id_key_no_renumber.
 Qed.
